@@ -1495,6 +1495,23 @@ func (in *Interp) callBuiltin(b *ssa.Builtin, args []Value, site ssa.Instruction
 	case "delete":
 		in.mapDelete(args[0], args[1])
 		return &Agg{}
+	case "clear":
+		switch c := args[0].(type) {
+		case MapV:
+			if c.obj != nil {
+				c.obj.val = &MapData{}
+			}
+		case SliceV:
+			call := site.(*ssa.Call)
+			st := call.Call.Args[0].Type().Underlying().(*types.Slice)
+			z := in.zero(st.Elem())
+			for i := 0; i < c.n; i++ {
+				in.store(c.elemPtr(i), z)
+			}
+		default:
+			panic(unsupported("clear of this type"))
+		}
+		return &Agg{}
 	case "print", "println":
 		return &Agg{}
 	case "min", "max":
@@ -1522,15 +1539,6 @@ func (in *Interp) callBuiltin(b *ssa.Builtin, args []Value, site ssa.Instruction
 			}
 		}
 		return acc
-	case "clear":
-		switch c := args[0].(type) {
-		case MapV:
-			if c.obj != nil {
-				c.obj.val = &MapData{}
-			}
-			return &Agg{}
-		}
-		panic(unsupported("clear"))
 	case "ssa:wrapnilchk":
 		if isNilPtr(args[0]) {
 			in.goPanic("value method called using nil pointer")
